@@ -11,6 +11,9 @@ def claim(pid, text, note, technique, category="proof", design_ref=None):
                        design_ref=design_ref or "DESIGN.md section 8, " + pid)
 
 exec(open(os.path.join(HERE, "tools", "claims.py")).read())
+import glob
+for _p in sorted(glob.glob(os.path.join(HERE, "tools", "claims.d", "C*.py"))):
+    exec(open(_p).read())
 
 props = [json.loads(l)["id"] for l in open(os.path.join(HERE, "properties.jsonl"))]
 checks = []
